@@ -26,7 +26,7 @@ ASSUMPTIONS = [
 ]
 PLAN = {
     "quick": {"shards": 8, "shard_timeout": 500, "case_timeout": 60, "seq": 1500, "runs": 150, "par": 48, "max_case_timeouts": 3},
-    "thorough": {"shards": 8, "shard_timeout": 3600, "case_timeout": 90, "seq": 150000, "runs": 15000, "par": 2400, "max_case_timeouts": 10},
+    "thorough": {"shards": 8, "shard_timeout": 3600, "case_timeout": 90, "seq": 600000, "runs": 60000, "par": 6000, "max_case_timeouts": 10},
 }
 THRESHOLDS = {
     "quick": {"individuals_checked": 5000, "sequential_calls": 600, "multi_objective_calls": 200, "representations": 300, "shared_problem_cases": 100, "runs": 70, "parallel_calls": 40, "parallel_individuals": 150, "set:completion_orders": 5, "parallel_with_evaluated_members": 10, "parallel_batches_with_duplicates": 8},
